@@ -14,7 +14,7 @@ vars == <<main, drop, stage, rej, run>>
 Tree == [main |-> main, drop |-> drop, mshape |-> "both", dshape |-> "both"]
 Idle == [phase |-> "idle", K |-> <<>>, pos |-> 0, log |-> <<>>, used |-> {}, failed |-> FALSE,
          rc |-> "none", cfg |-> <<>>, hist |-> <<>>]
-Faults == [f \in AllFiles(Tree) |-> IF f \in rej THEN "reject" ELSE "none"]
+Faults == [f \in AllFiles(Tree) |-> IF f \in rej THEN {"reject"} ELSE {}]
 
 Init == main = <<>> /\ drop = <<>> /\ stage = 0 /\ rej = {} /\ run = Idle
 Grow == /\ stage < NLay /\ stage' = stage + 1
